@@ -153,6 +153,9 @@ Clause(s, e) ==
     [] e.a = "unlock" ->      \* C06: a (password, key file) pair unlocks iff the password is the key's own
          \* (events with a field "imp" try a password that is close to, but not, the key's own: they must all fail)
          IF On("P:UnlockOwnPasswordOnly") /\ (IF "imp" \in DOMAIN e THEN e.ok ELSE e.ok # (Tr.pw[e.pw] = Tr.pw[e.key])) THEN "P:UnlockOwnPasswordOnly" ELSE "ok"
+    [] e.a = "keyrel" ->      \* C06: what add-key was ASKED for is what the new key is (clone and shared: the family of the key it was made
+                              \* from, i.e. the same shared secrets; independent: another family) - judged from the key files by the independent codec
+         IF On("P:AddKeyRelation") /\ (IF e.kind \in {"clone", "shared"} THEN ~e.samefam ELSE e.samefam) THEN "P:AddKeyRelation" ELSE "ok"
     [] e.a = "restore" ->
          IF ~e.ok THEN (IF e.fault \/ ~On("P:RestoreOk") THEN "ok" ELSE "P:RestoreOk")
          ELSE IF On("P:RestoreSelect") /\ (Rng(e.tree) # ExpectedTree(s, e.u, Rng(e.S), Rng(e.F))) THEN "P:RestoreSelect"
